@@ -31,6 +31,7 @@ type bpCase struct {
 	dh       int    // proof height = block height + dh
 	hashMode string // match | other
 	seed     string // ok | otherprev | absent | forged
+	prev     string // the previous proof handed to the call: "" (the one the seed signature was made for) | other | nil
 	soft     bool
 	block    string // match | otherhash | otherheight | nil
 	mangle   string // "" | trunc | flip | random | empty
@@ -42,7 +43,7 @@ func (c bpCase) desc() obj {
 	for _, s := range c.signers {
 		sg = append(sg, obj{"idx": s.idx, "status": s.status})
 	}
-	return obj{"weights": c.weights, "signers": sg, "ht": int(c.ht), "inst": int(c.inst), "dh": c.dh, "hash": c.hashMode, "seed": c.seed,
+	return obj{"weights": c.weights, "signers": sg, "ht": int(c.ht), "inst": int(c.inst), "dh": c.dh, "hash": c.hashMode, "seed": c.seed, "prev": c.prev,
 		"soft": c.soft, "block": c.block, "mangle": c.mangle, "at": c.mangleAt}
 }
 
@@ -146,6 +147,15 @@ func runBpCase(out *ndjson, c bpCase) {
 		blk = nil
 		blkAbs = obj{"nil": true, "h": 0, "x": "-"}
 	}
+	// the previous proof the caller hands in: the random seed the signature must verify against derives from THIS one, on
+	// every call (the same signature may have been accepted a moment ago with another previous proof)
+	givenPrev := prevProof
+	switch c.prev {
+	case "other":
+		givenPrev = otherPrev
+	case "nil":
+		givenPrev = nil
+	}
 	result := "err"
 	func() {
 		defer func() {
@@ -153,7 +163,7 @@ func runBpCase(out *ndjson, c bpCase) {
 				result = "panic"
 			}
 		}()
-		if n.worker.ValidateBlockConsensus(context.Background(), blk, proof, prevBlock, prevProof, c.soft) == nil {
+		if n.worker.ValidateBlockConsensus(context.Background(), blk, proof, prevBlock, givenPrev, c.soft) == nil {
 			result = "ok"
 		}
 	}()
@@ -170,7 +180,7 @@ func runBpCase(out *ndjson, c bpCase) {
 	pa := cl.blockProofAbs(proof)
 	if !pa["bad"].(bool) {
 		h := uint64(protocol.BlockProofReader(proof).BlockRef().BlockHeight())
-		pa["seedok"] = string(protocol.BlockProofReader(proof).RandomSeedSignature()) == string(cl.ring.aggregateSig(h, seedOf(prevProof)))
+		pa["seedok"] = string(protocol.BlockProofReader(proof).RandomSeedSignature()) == string(cl.ring.aggregateSig(h, seedOf(givenPrev)))
 	} else {
 		pa = obj{"bad": true, "ht": "?", "inst": 0, "h": 0, "x": "?", "signers": []obj{}, "seedok": false}
 	}
@@ -269,6 +279,9 @@ func cmdBlockProof(args []string) int {
 				func(c *bpCase) { c.seed = "otherprev" },
 				func(c *bpCase) { c.seed = "absent" },
 				func(c *bpCase) { c.seed = "forged" },
+				func(c *bpCase) { c.prev = "other" },
+				func(c *bpCase) { c.prev = "nil" },
+				func(c *bpCase) { c.prev = "other"; c.seed = "otherprev" }, // consistent again: acceptable
 				func(c *bpCase) { c.block = "otherhash" },
 				func(c *bpCase) { c.block = "otherheight" },
 				func(c *bpCase) { c.block = "nil" },
@@ -321,6 +334,9 @@ func cmdBlockProof(args []string) int {
 		if rnd.Intn(6) == 0 {
 			c.block = []string{"otherhash", "otherheight", "nil"}[rnd.Intn(3)]
 		}
+		if rnd.Intn(6) == 0 {
+			c.prev = []string{"other", "nil"}[rnd.Intn(2)]
+		}
 		emit(c)
 	}
 	// malformed encodings of an otherwise acceptable proof
@@ -338,7 +354,7 @@ func cmdBlockProof(args []string) int {
 
 func caseFromDesc(d map[string]interface{}) bpCase {
 	c := bpCase{ht: protocol.MessageType(int(d["ht"].(float64))), inst: primitives.InstanceId(int(d["inst"].(float64))), dh: int(d["dh"].(float64)),
-		hashMode: d["hash"].(string), seed: d["seed"].(string), soft: d["soft"].(bool), block: d["block"].(string), mangle: d["mangle"].(string), mangleAt: int(d["at"].(float64))}
+		hashMode: d["hash"].(string), seed: d["seed"].(string), prev: strOr(d["prev"]), soft: d["soft"].(bool), block: d["block"].(string), mangle: d["mangle"].(string), mangleAt: int(d["at"].(float64))}
 	for _, w := range d["weights"].([]interface{}) {
 		c.weights = append(c.weights, uint64(w.(float64)))
 	}
@@ -347,4 +363,11 @@ func caseFromDesc(d map[string]interface{}) bpCase {
 		c.signers = append(c.signers, bpSigner{int(m["idx"].(float64)), m["status"].(string)})
 	}
 	return c
+}
+
+func strOr(v interface{}) string {
+	if s, ok := v.(string); ok {
+		return s
+	}
+	return ""
 }
